@@ -71,6 +71,22 @@ def run(ctx):
     ctx.stats["C11.G.reachable_fns"] = len(reach)
 
 
+def stale_fields(fx, adt, entry):
+    """[(field, [(function, line, kind, description)])] for the fields of `adt` that `entry` mutates but whose first access on some path is a
+    read / read-modify-write made before any whole-field assignment in this call (state left by an earlier call is observable)"""
+    if adt not in fx.adts or entry not in fx.fns:
+        return None
+    ff = FieldFlow(fx, adt)
+    s = ff.summ.get(entry)
+    if s is None:
+        return None
+    out = []
+    for f in ff.fields:
+        if f in s.may_mut and s.first_r.get(f):
+            out.append((f, s.first_r[f][:3]))
+    return out
+
+
 def statics_touched(fx, fn):
     out = []
     for body in fn.all_bodies():
